@@ -18,7 +18,7 @@ func c12(r *hx.Run) {
 	fx.Quiet()
 	protoClient, v := stdClient()
 	delta := v.P.MaxOperationTimeDelta
-	r.Rule = "intake: every pairing (revealed key k_i, next commitment = commitment of k_j under SHA2-256 or SHA2-512, reveal value under either algorithm) for update and recover, and every pairing (update commitment, recovery commitment) for create and recover, for all five key types (also with two different nonces in the revealed and in the committed key, on one parser instance), parsed by the real parser: accepted iff the next commitment is not the commitment of the revealed key / the two commitments differ; the same pairings through the client request builders (update, recover, create): a forbidden pairing is not built (or at least never both built and accepted), a permitted one is built. Resolution: every history made of a forward commitment chain of length <=4 (update chain and recovery chain) plus 1 or 2 commitment-closing operations (self loops and cycles of length 2..4; closing recovers also without their delta member) anchored at every position, with and without the legitimate continuation, on the real processor vs ref/sidetree (which never revisits a commitment). Non-trivial: pairings with i=j, histories where a closing operation is a candidate for the commitment in force."
+	r.Rule = "intake: every pairing (revealed key k_i, next commitment = commitment of k_j under SHA2-256 or SHA2-512, reveal value under either algorithm) for update and recover, and every pairing (update commitment, recovery commitment) for create and recover, for all five key types (also with two different nonces in the revealed and in the committed key, on one parser instance), parsed by the real parser: accepted iff the next commitment is not the commitment of the revealed key / the two commitments differ; the same pairings through the client request builders (update, recover, create): a forbidden pairing is not built (or at least never both built and accepted), a permitted one is built. Resolution: every history made of a forward commitment chain of length <=4 (update chain and recovery chain) plus 1 or 2 commitment-closing operations (self loops and cycles of length 2..4; closing recovers also without their delta member; every single closing operation also as an unpublished operation) anchored at every position, with and without the legitimate continuation, on the real processor vs ref/sidetree (which never revisits a commitment). Non-trivial: pairings with i=j, histories where a closing operation is a candidate for the commitment in force."
 	// ---------- intake
 	for _, kt := range fx.KeyTypes {
 		keys := []*fx.Key{fx.NewKey(kt, "c12/k0"), fx.NewKey(kt, "c12/k1"), fx.NewKey(kt, "c12/k2")}
@@ -274,6 +274,8 @@ func c12(r *hx.Run) {
 				for _, s1 := range slots {
 					p1 := fx.Placed{Op: pool.Get(fmt.Sprintf("%s%d>%d", chainType, c1.i, c1.j)), Time: s1.T, Num: 0, Published: true}
 					jobs = append(jobs, job{[]fx.Placed{p1}})
+					// the closing operation as an unpublished operation (accepted at intake, not yet anchored)
+					jobs = append(jobs, job{[]fx.Placed{{Op: p1.Op, Time: s1.T, Num: 0, Published: false}}})
 					if chainType == "R" { // the closing recover without a delta member
 						jobs = append(jobs, job{[]fx.Placed{{Op: pool.Get(fmt.Sprintf("R%d>%d~n", c1.i, c1.j)), Time: s1.T, Num: 0, Published: true}}})
 					}
